@@ -56,10 +56,10 @@ func init() {
 		})
 	clusterCheck("C02",
 		func() []Unit {
-			return scUnits(1, "write3", "write3-pipe", "crash3", "snap3", "snap3-pipe", "snap3-trail1", "snap3-mono", "stale-suffix", "majority-restart", "member", "rcl3-snap", "autosnap3", "batch-mix", "batch-mix-cfgstore")
+			return scUnits(1, "write3", "write3-pipe", "crash3", "snap3", "snap3-pipe", "snap3-trail1", "snap3-mono", "stale-suffix", "majority-restart", "member", "rcl3-snap", "autosnap3", "batch-mix", "batch-mix-cfgstore", "fig8", "fig8-batch1", "fig8-paper")
 		},
 		func() []Unit {
-			return scUnits(2, "write3", "write3-pipe", "crash3", "snap3", "snap3-pipe", "snap3-trail1", "snap3-mono", "stale-suffix", "majority-restart", "member", "fig8", "transfer")
+			return scUnits(2, "write3", "write3-pipe", "crash3", "snap3", "snap3-pipe", "snap3-trail1", "snap3-mono", "stale-suffix", "majority-restart", "member", "fig8", "fig8-batch1", "fig8-paper", "transfer", "batch-mix", "batch-lag", "autosnap3")
 		})
 	clusterCheck("C03",
 		func() []Unit {
@@ -70,7 +70,7 @@ func init() {
 		})
 	clusterCheck("C04",
 		func() []Unit {
-			return append([]Unit{{Name: "enum-appendentries", Enum: enumC04}}, scUnits(1, "write3", "write3-pipe", "write3-inmem", "crash3", "fig8", "stale-suffix", "stale-suffix-batch1", "stale-suffix-pipe", "stale-suffix-inmem", "stale-suffix-trail", "snap3", "majority-restart")...)
+			return append([]Unit{{Name: "enum-appendentries", Enum: enumC04}}, scUnits(1, "write3", "write3-pipe", "write3-inmem", "crash3", "fig8", "stale-suffix", "stale-suffix-batch1", "stale-suffix-pipe", "stale-suffix-inmem", "stale-suffix-trail", "stale-suffix-config", "snap3", "majority-restart")...)
 		},
 		func() []Unit {
 			return append([]Unit{{Name: "enum-appendentries", Enum: enumC04}}, scUnits(2, "write3", "write3-pipe", "write3-inmem", "crash3", "fig8", "stale-suffix", "stale-suffix-batch1", "stale-suffix-pipe", "stale-suffix-inmem", "stale-suffix-trail", "snap3", "snap3-mono", "majority-restart", "member")...)
@@ -84,10 +84,10 @@ func init() {
 		})
 	clusterCheck("C07",
 		func() []Unit {
-			return append([]Unit{{Name: "enum-nextconfiguration", Enum: enumC07}}, scUnits(1, "member", "member-race", "member-trunc5", "member-trunc5-snap", "member-sor", "transfer", "rcl3-after")...)
+			return append([]Unit{{Name: "enum-nextconfiguration", Enum: enumC07}}, scUnits(1, "member", "member-race", "member-trunc5", "member-trunc5-snap", "member-sor", "member-early", "transfer", "rcl3-after")...)
 		},
 		func() []Unit {
-			return append([]Unit{{Name: "enum-nextconfiguration", Enum: enumC07}}, scUnits(2, "member", "member-race", "member-trunc5", "member-trunc5-snap", "member-sor", "transfer", "crash3", "rcl3-after")...)
+			return append([]Unit{{Name: "enum-nextconfiguration", Enum: enumC07}}, scUnits(2, "member", "member-race", "member-trunc5", "member-trunc5-snap", "member-sor", "member-early", "transfer", "crash3", "rcl3-after")...)
 		})
 	clusterCheck("C08",
 		func() []Unit {
@@ -98,10 +98,10 @@ func init() {
 		})
 	clusterCheck("C10",
 		func() []Unit {
-			return scUnits(1, "write3", "crash3", "majority-restart", "member", "snap3", "snap3-mono", "snap3-inmem", "crash3-inmem", "majority-restart-inmem", "stale-suffix-batch1", "snap-member-slowfsm", "rcl1", "rcl3", "rcl3-snap", "rcl1-many", "rcl1-130", "rcl1-after", "rcl3-after")
+			return scUnits(1, "write3", "crash3", "majority-restart", "member", "snap3", "snap3-mono", "snap3-inmem", "crash3-inmem", "majority-restart-inmem", "stale-suffix-batch1", "snap-member-slowfsm", "revote3", "rcl1", "rcl3", "rcl3-snap", "rcl1-many", "rcl1-130", "rcl1-after", "rcl3-after")
 		},
 		func() []Unit {
-			return scUnits(2, "write3", "crash3", "majority-restart", "member", "snap3", "snap3-mono", "snap3-inmem", "crash3-inmem", "majority-restart-inmem", "stale-suffix", "snap-member-slowfsm", "rcl1", "rcl3", "rcl3-snap", "rcl1-many", "rcl1-130", "rcl1-after", "rcl3-after")
+			return scUnits(2, "write3", "crash3", "majority-restart", "member", "snap3", "snap3-mono", "snap3-inmem", "crash3-inmem", "majority-restart-inmem", "stale-suffix", "snap-member-slowfsm", "revote3", "rcl1", "rcl3", "rcl3-snap", "rcl1-many", "rcl1-130", "rcl1-after", "rcl3-after")
 		})
 	clusterCheck("C11",
 		func() []Unit {
